@@ -72,8 +72,13 @@ class Modules:
 		if module_path not in self.__modules:
 			self.__load_libraries(module_path)
 			self.__modules[module_path] = self.__loader.load(ModulePath(module_path, language))
-			self.__load_dependencies(self.__modules[module_path])
-			self.__loader.preprocess(self.__modules[module_path])
+			try:
+				self.__load_dependencies(self.__modules[module_path])
+				self.__loader.preprocess(self.__modules[module_path])
+			except Exception:
+				# 読み込みに失敗したモジュールは登録を残さない (次回のロードで同じエラーを報告させる)
+				self.unload(module_path)
+				raise
 
 		return self.__modules[module_path]
 
